@@ -195,25 +195,37 @@ impl History {
         #[cfg(feature = "verif-hooks")]
         let mut file = crate::verif::AnnouncedFile::new(file, "history");
 
+        // N.B. Everything goes out in a single write: other sessions may be appending to the
+        // same file, and pieces written separately (a timestamp, a command, a newline) could
+        // end up between theirs.
+        let mut text = String::new();
+        let mut written = vec![];
         for item_id in &self.items {
-            if let Some(item) = self.id_map.get_mut(item_id) {
+            if let Some(item) = self.id_map.get(item_id) {
                 if unsaved_items_only && !item.dirty {
                     continue;
                 }
 
                 if write_timestamps && let Some(timestamp) = item.timestamp {
-                    writeln!(file, "#{}", timestamp.timestamp())?;
+                    text.push_str(&std::format!("#{}\n", timestamp.timestamp()));
                 }
 
-                writeln!(file, "{}", item.command_line)?;
+                text.push_str(&item.command_line);
+                text.push('\n');
+                written.push(*item_id);
+            }
+        }
 
-                if unsaved_items_only {
+        file.write_all(text.as_bytes())?;
+        file.flush()?;
+
+        if unsaved_items_only {
+            for item_id in &written {
+                if let Some(item) = self.id_map.get_mut(item_id) {
                     item.dirty = false;
                 }
             }
         }
-
-        file.flush()?;
 
         Ok(())
     }
